@@ -117,10 +117,10 @@ type Sim struct {
 	// order permutation
 	orderSalt uint64
 
-	prog      map[string]*progress
-	gateLimit time.Duration
+	prog              map[string]*progress
+	gateLimit         time.Duration
 	engineConnTimeout time.Duration
-	T0        time.Duration
+	T0                time.Duration
 
 	invariants []func() error
 	stopped    bool
